@@ -33,7 +33,7 @@ TRUSTED = [
     'axioms printed under the theorems at the real-number instance: ClassicalDedekindReals.sig_not_dec, sig_forall_dec, '
     'FunctionalExtensionality.functional_extensionality_dep, Classical_Prop.classic (Coq Reals / lra); the wrapper / status theorems that do not need '
     'an order are proved for every number system and are closed under the global context',
-    'translator/py2coq.py: reading of the 44 kernels of minimizer.py / parameters.py / llhratio.py (G_minimize.v)',
+    'translator/py2coq.py: reading of the 52 kernels of minimizer.py / parameters.py / llhratio.py (G_minimize.v)',
     'hand model M_Minimize.v of the control flow (loops as structural recursion on max_steps / max_repetitions), '
     'validated by this correspondence on every run',
     'extraction (ExtrOcamlBasic only) and the hand-written OCaml driver ocaml/c11/driver.ml incl. the float Num record',
